@@ -29,6 +29,7 @@ import (
 	"github.com/magisterquis/curlrevshell/verifx/ev"
 	"github.com/magisterquis/curlrevshell/verifx/ptyrun"
 	"github.com/magisterquis/curlrevshell/verifx/quiesce"
+	"github.com/magisterquis/curlrevshell/verifx/rcall"
 	"github.com/magisterquis/curlrevshell/verifx/vtime"
 )
 
@@ -84,7 +85,12 @@ func newTermSessionOpts(capPath string, noTimestamps bool, insert []byte, deferS
 		return nil, err
 	}
 	os.Stdout, os.Stdin = ts.capture, ts.stdinR
-	ts.sh, ts.cleanup, err = opshell.New(ts.ich, ts.och, "", noTimestamps, func() ([]byte, error) { return ts.insert, nil }, "the-insert-source")
+	{
+		res := rcall.Call(opshell.New, ts.ich, ts.och, "", noTimestamps, func() ([]byte, error) { return ts.insert, nil }, "the-insert-source")
+		ts.sh, _ = res[0].(*opshell.Shell)
+		ts.cleanup, _ = res[1].(func())
+		err = rcall.Err(res)
+	}
 	if nil != err {
 		os.Stdout, os.Stdin = realStdout, realStdin
 		return nil, err
